@@ -441,6 +441,7 @@ class TopKRetrieval(base.MergeableMetric, base.HasAsAggFn):
   input_type: dataclasses.InitVar[InputType | str] = (
       InputType.MULTICLASS_MULTIOUTPUT
   )
+  _input_type: InputType = dataclasses.field(init=False)
   _state: MeanStatesPerMetric = dataclasses.field(
       default_factory=lambda: collections.defaultdict(MeanState),
       init=False,
@@ -452,6 +453,7 @@ class TopKRetrieval(base.MergeableMetric, base.HasAsAggFn):
         InputType.MULTICLASS,
     ):
       raise NotImplementedError(f'"{input_type}" is not supported.')
+    object.__setattr__(self, '_input_type', InputType(input_type))
     metrics = [self.metrics] if isinstance(self.metrics, str) else self.metrics
     metrics = [RetrievalMetric(metric) for metric in metrics]
     object.__setattr__(self, '_metrics', metrics)
@@ -461,7 +463,7 @@ class TopKRetrieval(base.MergeableMetric, base.HasAsAggFn):
         self.__class__,
         k_list=self.k_list,
         metrics=self.metrics,
-        input_type=self.input_type,
+        input_type=self._input_type,
     )
 
   @property
@@ -470,6 +472,10 @@ class TopKRetrieval(base.MergeableMetric, base.HasAsAggFn):
 
   def add(self, y_true, y_pred) -> dict[str, types.NumbersT]:
     """Compute all true positive related metrics."""
+    if self._input_type == InputType.MULTICLASS:
+      # A single class identifier per example is a ranking of length one.
+      y_true = [[label] for label in y_true]
+      y_pred = [[label] for label in y_pred]
     k_list = list(sorted(self.k_list)) if self.k_list else [float('inf')]
     y_pred_count = np.asarray([len(row) for row in y_pred])
     y_true_count = np.asarray([len(row) for row in y_true])
